@@ -1,6 +1,7 @@
 import KyberModel.Drive.Common
 import KyberModel.Groups.Embed
 import KyberModel.Groups.HashToCurve
+import KyberModel.Proto.Effects
 /-
 Handlers (C17):
   `embed <group> [params] <data|nil> <stream>`  → `exhausted` | `ok <value…> <bytes consumed>`
@@ -100,6 +101,17 @@ def handleH2c : List String → String
   | ["hash", m, d] => match hexB m, hexB d with
     | some m, some d => (match H2C.hash m d with | none => "err" | some P => "ok " ++ outB (Ed25519.enc P))
     | _, _ => badOp
+  | _ => badOp
+
+/-- `effects count` → number of table entries; `effects entry <i>` → `impl|method|class` (C20). -/
+def handleEffects : List String → String
+  | ["count"] => toString Effects.table.length
+  | ["entry", i] => match i.toNat? with
+    | some i => (match Effects.table[i]? with
+      | some x => s!"{x.impl}|{x.method}|" ++ (match x.cls with
+          | .pure => "pure" | .fresh => "fresh" | .sharedWrite => "sharedWrite")
+      | none => badOp)
+    | none => badOp
   | _ => badOp
 
 end Kyber.Drive
